@@ -83,6 +83,14 @@ def main(tier, seed, replay=None):
         after = set(I.environment.map)
         if after - before != {"c11ctr", "c11user", "again", "s2", "g"}:
             bad.append("names bound by the requires: %s" % sorted(after - before))
+        # an import list names what the MODULE defines: names of the base environment, unknown names and private names bind nothing
+        b2 = set(I.environment.map)
+        ev("require c11ctr import [shown as s3, length as len2, sprintf, nosuchthing as nst, _hidden as hid, MAXINT as mx, f]")
+        a2 = set(I.environment.map)
+        if a2 - b2 != {"s3", "f"}:
+            bad.append("import list bound %s, the module defines only shown and f of the listed names" % sorted(a2 - b2))
+        for nm in ("s3", "f"):
+            I.environment.map.pop(nm, None)
         if [x.value for x in log.value] != [1]:
             bad.append("c11ctr ran %d times" % len(log.value))
         if ev("[c11ctr->shown, c11ctr->f(), again->f(), g(), s2]") != "[2, 3, 3, 3, 2]":
